@@ -1,7 +1,218 @@
 import TbbVerif.Core.Proto
+import TbbVerif.Model.C16
 
-open TbbVerif
+open TbbVerif TbbVerif.C16 TbbVerif.Proto
 
-def drivers : List (String × Proto.Driver) := []
+namespace C16Drv
+
+def showInts (xs : List Int) : String := ",".intercalate (xs.map toString)
+def showNatsC (xs : List Nat) : String := ",".intercalate (xs.map toString)
+
+/-! ### `c16`: stateless pure functions -/
+
+/-- parse `L <D> <min>:<max> … L <D> …` -/
+def groups (ws : List String) : List (List String) :=
+  ws.foldr (fun w acc => if w == "L" then [] :: acc else match acc with
+    | g :: gs => (w :: g) :: gs
+    | [] => [[w]]) [[]]
+
+def parseGroup : List String → Option (Nat × List Client)
+  | d :: cs => do
+    let D ← nat? d
+    let cl ← cs.mapM (fun w => match w.splitOn ":" with
+      | [a, b] => do let a ← nat? a; let b ← nat? b; some ({ minW := a, maxW := b } : Client)
+      | _ => none)
+    some (D, cl)
+  | [] => none
+
+def parseLevels (ws : List String) : Option (List (Nat × List Client)) :=
+  match groups ws with
+  | [] :: gs => gs.mapM parseGroup
+  | _ => none
+
+def showOut (o : Out) : String :=
+  s!"{o.allotted}:" ++ (match o.setTop with | none => "-" | some b => showBool b)
+
+def showAllot (r : Loop × List (List Out)) : String :=
+  " | ".intercalate (r.2.map (fun os => " ".intercalate (os.map showOut))) ++ s!" # {r.1.assigned}"
+
+def drive (ws : List String) : String :=
+  match ws with
+  | "allot" :: soft :: total :: mand :: rest =>
+    match nat? soft, nat? total, nat? mand, parseLevels rest with
+    | some soft, some total, some mand, some levels =>
+      match updateAllotment soft total mand levels with
+      | some r => showAllot r
+      | none => "fpe"
+    | _, _, _, _ => "bad-op"
+  | ["ld", d, l, n] =>
+    match int? d, int? l, int? n with
+    | some d, some l, some n => toString (limitDelta d l n)
+    | _, _, _ => "bad-op"
+  | ["add", w, d] =>
+    match nat? w, int? d with
+    | some w, some d =>
+      let w' := Pack.add w d
+      s!"{w'} {showBool (Pack.isDrainer w)} {Pack.extract w'}"
+    | _, _ => "bad-op"
+  | ["upd", soft, total, pending, d] =>
+    match int? soft, int? total, nat? pending, int? d with
+    | some soft, some total, some pending, some d =>
+      let (s', out) := ({ softLimit := soft, totalRequest := total, pending := pending } : Serializer).update d
+      s!"{s'.pending} {s'.totalRequest} " ++ (match out with | some o => toString o | none => "-")
+    | _, _, _, _ => "bad-op"
+  | ["ur", mnw, mand, tot, md, wd] =>
+    match nat? mnw, int? mand, int? tot, int? md, int? wd with
+    | some mnw, some mand, some tot, some md, some wd =>
+      let (a, _) := ({ id := 0, maxNumWorkers := mnw, mandReq := mand, totalReq := tot } : Arena).updateRequest md wd
+      s!"{a.minW} {a.maxW}"
+    | _, _, _, _, _ => "bad-op"
+  | _ => "bad-op"
+
+/-! ### `c16m`: market + serializer world -/
+
+def showArena (a : Arena) : String :=
+  s!"{a.id}:{a.minW}:{a.maxW}:{a.allotted}:{showBool a.top}"
+
+def showWorld (w : World) : String :=
+  let m := w.market
+  let s := w.proxy.ser
+  s!"soft={m.softLimit} total={m.totalDemand} mand={m.mandatoryNum} D={showInts m.levelDemand} C=" ++
+    " | ".intercalate (m.clients.map (fun cs => " ".intercalate (cs.map showArena))) ++
+    s!" ser={s.softLimit},{s.totalRequest},{s.pending},{s.handed} prox={w.proxy.numMandatory},{showBool w.proxy.enabled}"
+
+def driveWorld (w : World) (ws : List String) : World × String :=
+  let op : Option (Option WOp) := match ws with
+    | ["reset", _] => some none
+    | ["reg", id, l, mnw] => (do let id ← nat? id; let l ← nat? l; let mnw ← nat? mnw; some (some (WOp.reg id l mnw)))
+    | ["unreg", id] => (do let id ← nat? id; some (some (WOp.unreg id)))
+    | ["adj", id, md, wd] => (do let id ← nat? id; let md ← int? md; let wd ← int? wd; some (some (WOp.adjust id md wd)))
+    | ["lim", n] => (do let n ← nat? n; some (some (WOp.setLimit n)))
+    | _ => none
+  match op, ws with
+  | some none, [_, soft] =>
+    match nat? soft with
+    | some soft => let w' := World.init soft; (w', showWorld w')
+    | none => (w, "bad-op")
+  | some (some o), _ =>
+    match w.step o with
+    | some w' => (w', showWorld w')
+    | none => (w, "bad-op")
+  | _, _ => (w, "bad-op")
+
+/-! ### `c16gc`: global_control storage -/
+
+def showGC (g : GC) : String :=
+  s!"active={g.active} value={g.activeValue} napplied={g.applied.length} last=" ++
+    (match g.applied.getLast? with | some v => toString v | none => "-")
+
+def driveGC (g : GC) (ws : List String) : GC × String :=
+  match ws with
+  | ["reset", pm, d] =>
+    match nat? pm, nat? d with
+    | some pm, some d => let g' : GC := { preferMin := pm != 0, dflt := d }; (g', showGC g')
+    | _, _ => (g, "bad-op")
+  | ["create", h, v] =>
+    match nat? h, nat? v with
+    | some h, some v => if g.live.any (·.1 == h) then (g, "bad-op") else let g' := g.create h v; (g', showGC g')
+    | _, _ => (g, "bad-op")
+  | ["destroy", h] =>
+    match nat? h with
+    | some h => if g.live.any (·.1 == h) then let g' := g.destroy h; (g', showGC g') else (g, "bad-op")
+    | none => (g, "bad-op")
+  | _ => (g, "bad-op")
+
+/-! ### `c16slots`: trace replay of the slot protocol -/
+
+structure SD where
+  cfg : SCfg := { numSlots := 0, reserved := 0 }
+  st : SSt := { occ := [], limit := 1, ths := [] }
+
+def showEv (t : Nat) (e : Ev) : String := s!"{t} {e.kind} {e.var} {e.order} {e.a} {e.b} {e.ok}"
+
+/-- index `i` of a variable name `occ<i>` -/
+def occIndex (v : String) : Option Nat :=
+  if v.startsWith "occ" then (v.drop 3).toString.toNat? else none
+
+def driveSlots (d : SD) (ws : List String) : SD × String :=
+  match ws with
+  | "cfg" :: n :: r :: kinds =>
+    match nat? n, nat? r, kinds.mapM nat? with
+    | some n, some r, some ks =>
+      let cfg : SCfg := { numSlots := n, reserved := r }
+      ({ cfg := cfg, st := (slotSys cfg (ks.map (fun k => (k != 0, [])))).init }, "ok")
+    | _, _, _ => (d, "bad-op")
+  | [t, "res", r] =>
+    match nat? t, int? r with
+    | some t, some r =>
+      match d.st.ths[t]? with
+      | some th =>
+        let got : Int := match th.slot with | some i => (i : Int) | none => -1
+        let pcOk := match th.pc with | .inside _ => true | .idle => true | _ => false
+        (d, if got == r && pcOk then "ok" else s!"mismatch model={got}")
+      | none => (d, "bad-tid")
+    | _, _ => (d, "bad-op")
+  | [t, _kind, var, _order, _a, _b, _ok] =>
+    match nat? t with
+    | some t =>
+      match d.st.ths[t]? with
+      | some th =>
+        -- the start index of a range is the implementation's choice: read it off the observed access
+        let pc0 := match th.pc with | .idle => enterStart d.cfg th.worker | pc => pc
+        let hint := match pc0, occIndex var with
+          | .rangeBegin lo _, some i => i - lo
+          | _, _ => 0
+        let needsHint := match th.pc with | .idle => true | .rangeBegin _ _ => true | _ => false
+        let th1 := if needsHint then { th with hints := [hint] } else th
+        let (th', occ', limit', ev) := stepTh d.cfg d.st.occ d.st.limit th1
+        let st' : SSt := { occ := occ', limit := limit', ths := d.st.ths.set t th' }
+        ({ d with st := st' }, match ev with | some e => showEv t e | none => s!"{t} none")
+      | none => (d, "bad-tid")
+    | none => (d, "bad-op")
+  | ["check"] =>
+    let holders := (List.range d.st.ths.length).filterMap (fun t => match d.st.ths[t]? with
+      | some th => th.slot.map (fun i => s!"{t}@{i}")
+      | none => none)
+    (d, s!"inside={d.st.insideCount} occ={showNatsC (d.st.occ.map b2n)} limit={d.st.limit} holders={" ".intercalate holders}")
+  | _ => (d, "bad-op")
+
+/-! ### `c16pend`: trace replay of `thread_request_serializer::update` under interleaving -/
+
+structure PD where
+  st : PSt := { ser := { softLimit := 0 }, ths := [] }
+
+def drivePend (d : PD) (ws : List String) : PD × String :=
+  match ws with
+  | "cfg" :: soft :: ds =>
+    match int? soft, ds.mapM int? with
+    | some soft, some ds => ({ st := (pendSys soft ds).init }, "ok")
+    | _, _ => (d, "bad-op")
+  | [t, _kind, _var, _order, _a, _b, _ok] =>
+    match nat? t with
+    | some t =>
+      match d.st.ths[t]? with
+      | some th =>
+        let s' := d.st.step t
+        let line := match th.pc with
+          | 0 => s!"{t} fadd pending sc {d.st.ser.pending} {s'.ser.pending} 1"
+          | 1 => s!"{t} xchg pending sc {d.st.ser.pending} {s'.ser.pending} 1"
+          | 2 => s!"{t} store total rlx {TbbVerif.Cint.wrapU 32 s'.ser.totalRequest} {TbbVerif.Cint.wrapU 32 d.st.ser.totalRequest} 1"
+          | _ => s!"{t} none"
+        ({ st := s' }, line)
+      | none => (d, "bad-tid")
+    | none => (d, "bad-op")
+  | ["check"] =>
+    (d, s!"total={d.st.ser.totalRequest} handed={d.st.ser.handed} pending={d.st.ser.pending} done={showBool (d.st.ths.all (·.pc == 3))}")
+  | _ => (d, "bad-op")
+
+end C16Drv
+
+def drivers : List (String × Proto.Driver) := [
+  ("c16", Proto.pureDriver C16Drv.drive),
+  ("c16m", { σ := World, init := World.init 0, step := C16Drv.driveWorld }),
+  ("c16gc", { σ := GC, init := { preferMin := true, dflt := 1 }, step := C16Drv.driveGC }),
+  ("c16slots", { σ := C16Drv.SD, init := {}, step := C16Drv.driveSlots }),
+  ("c16pend", { σ := C16Drv.PD, init := {}, step := C16Drv.drivePend })
+]
 
 def main (args : List String) : IO UInt32 := Proto.mainOf drivers args
